@@ -46,6 +46,8 @@ type Fail struct {
 
 // Ctx collects oracle failures of one transition.
 type Ctx struct {
+	// Prune asks the engine not to expand this state (and not to report it).
+	Prune bool
 	Fails []Fail
 	// Copy re-creates the current state on a fresh instance (replay), for
 	// observers that must consume it (drains).
@@ -81,6 +83,7 @@ type Sys interface {
 type Spec struct {
 	Property  string
 	Component string
+	KeyName   string // prefix of engine-generated finding keys; defaults to Component
 	Inits     []string
 	New       func(init string) Sys
 	MaxDepth  int // 0 = until fixpoint
@@ -93,6 +96,13 @@ type Path struct {
 	Ops  []Op   `json:"ops"`
 }
 
+func (sp *Spec) keyName() string {
+	if sp.KeyName != "" {
+		return sp.KeyName
+	}
+	return sp.Component
+}
+
 func (p Path) String() string {
 	var s []string
 	for _, o := range p.Ops {
@@ -102,7 +112,7 @@ func (p Path) String() string {
 }
 
 type Stats struct {
-	States, Transitions, Cut, Depth int
+	States, Transitions, Cut, Depth, Pruned int
 	Exhaustive                     bool
 	Closure                        string
 }
@@ -126,6 +136,7 @@ type result struct {
 	op    Op
 	fails []Fail
 	key   string
+	prune bool
 }
 
 // step builds path, applies op with checks and observers.
@@ -139,10 +150,14 @@ func (sp *Spec) step(p Path, op Op) (res result) {
 	}
 	c := &Ctx{}
 	c.Copy = func() Sys { x, _ := sp.Build(np); return x }
+	opClass := op.N
+	if oc, ok := s.(interface{ OpClass(Op) string }); ok {
+		opClass = oc.OpClass(op) // evaluated on the pre-state
+	}
 	func() {
 		defer func() {
 			if r := recover(); r != nil {
-				c.Fail(fmt.Sprintf("%s.%s/panic", sp.Component, op.N), "panic: %v\n%s", r, trimStack(debug.Stack()))
+				c.Fail(fmt.Sprintf("%s.%s/panic", sp.keyName(), opClass), "panic: %v\n%s", r, trimStack(debug.Stack()))
 			}
 		}()
 		s.Apply(op, c)
@@ -151,21 +166,37 @@ func (sp *Spec) step(p Path, op Op) (res result) {
 		func() {
 			defer func() {
 				if r := recover(); r != nil {
-					c.Fail(fmt.Sprintf("%s.observe/panic", sp.Component), "panic in observer suite: %v\n%s", r, trimStack(debug.Stack()))
+					c.Fail(fmt.Sprintf("%s.observers/after-%s/panic", sp.keyName(), opClass), "panic in observer suite: %v\n%s", r, trimStack(debug.Stack()))
 				}
 			}()
 			before := s.Key()
+			n0 := len(c.Fails)
 			s.Observe(c)
+			for i := n0; i < len(c.Fails); i++ {
+				c.Fails[i].Key = attribute(sp.Component, opClass, c.Fails[i].Key)
+			}
 			if after := s.Key(); after != before && !c.hard() {
-				c.Fail(sp.Component+".observe/observer-changed-state", "observers changed the state:\n before %s\n after  %s", before, after)
+				c.Fail(sp.keyName()+".observers/changed-state", "observers changed the state:\n before %s\n after  %s", before, after)
 			}
 		}()
 	}
 	res.fails = c.Fails
+	res.prune = c.Prune
 	if !c.hard() {
 		res.key = s.Key()
 	}
 	return
+}
+
+// attribute rewrites an observer failure key "Comp.Query/clause" to
+// "Comp.Query/after-<op>/clause": the operation that produced the state is
+// part of what identifies a finding.
+func attribute(comp, opName, key string) string {
+	i := strings.Index(key, "/")
+	if i < 0 {
+		return key + "/after-" + opName
+	}
+	return key[:i] + "/after-" + opName + key[i:]
 }
 
 func trimStack(b []byte) string {
@@ -204,6 +235,9 @@ func (sp *Spec) Run(rep *core.Report) Stats {
 			}()
 			s.Observe(c)
 		}()
+		for i := range c.Fails {
+			c.Fails[i].Key = attribute(sp.Component, "init", c.Fails[i].Key)
+		}
 		if len(c.Fails) > 0 {
 			cut := false
 			for _, f := range c.Fails {
@@ -292,6 +326,10 @@ func (sp *Spec) Run(rep *core.Report) Stats {
 						continue
 					}
 				}
+				if r.prune {
+					st.Pruned++
+					continue
+				}
 				if _, ok := seen[r.key]; !ok {
 					seen[r.key] = struct{}{}
 					next = append(next, np)
@@ -339,7 +377,7 @@ func Merge(rep *core.Report, comp string, st Stats) {
 	if per == nil {
 		per = map[string]any{}
 	}
-	per[comp] = map[string]any{"states": st.States, "transitions": st.Transitions, "cut": st.Cut, "depth": st.Depth, "exhaustive": st.Exhaustive, "closure": st.Closure}
+	per[comp] = map[string]any{"states": st.States, "transitions": st.Transitions, "cut": st.Cut, "pruned_latent": st.Pruned, "depth": st.Depth, "exhaustive": st.Exhaustive, "closure": st.Closure}
 	rep.Set("per_component", per)
 	ex, ok := rep.Coverage["exhaustive"].(bool)
 	if !ok {
